@@ -261,17 +261,38 @@ def _one_line(ops) -> str:
 # --------------------------------------------------------------------------------------------------
 
 
-def _strip_deletions(chain, lo):
-    """the chain with the None entries of every map_columns step at position >= lo removed (what a
-    replace_leaves that forgets MapColumnsNode.column_deletions rebuilds)"""
-    out = {"table": chain["table"], "steps": []}
-    changed = False
-    for i, (op, p) in enumerate(chain["steps"]):
-        if i >= lo and op == "map_columns" and any(v is None for v in p["map"].values()):
-            p = {"map": {k: v for k, v in p["map"].items() if v is not None}}
+def _strip_all(steps):
+    """build_pipe steps with the None entries of every map_columns map removed, nested right hand sides included"""
+    out, changed = [], False
+    for op, p in steps:
+        p = dict(p)
+        if op == "map_columns" and any(v is None for v in p["map"].values()):
+            p["map"] = {k: v for k, v in p["map"].items() if v is not None}
             changed = True
-        out["steps"].append([op, p])
+        if isinstance(p.get("b"), dict):
+            b = dict(p["b"])
+            b["steps"], ch = _strip_all(b["steps"])
+            changed = changed or ch
+            p["b"] = b
+        out.append([op, p])
     return out, changed
+
+
+def _variant_without_deletions(chain, lo):
+    """Model of `MapColumnsNode.replace_leaves forgets column_deletions`: the whole chain built DIRECTLY, with
+    the deletions of every map_columns inside the replaced segments (steps >= lo, their nested right hand
+    sides included) removed.  -> (changed, structural dump | None, 'ExcType: message' | None)"""
+    from cbc.c12 import pipe_dump
+
+    n = len(chain["steps"])
+    tail, changed = _strip_all(_conv_steps(chain["steps"], lo, n))
+    if not changed:
+        return False, None, None
+    spec = {"table": chain["table"], "cols": list(C.SCHEMAS[chain["table"]].keys()), "steps": _conv_steps(chain["steps"], 0, lo) + tail}
+    try:
+        return True, pipe_dump(O.build_pipe(spec)), None
+    except Exception as e:
+        return True, None, "%s: %s" % (type(e).__name__, str(e)[:200])
 
 
 def _has_node(ops, cls_name: str) -> bool:
@@ -290,14 +311,7 @@ def classify(chain, cuts, segs, res) -> Dict[str, List[str]]:
     keys: Dict[str, List[str]] = collections.OrderedDict()
     lo = cuts[0]
     replaced = [ops for ops, _ in segs[1:]]  # the pipelines whose leaves get replaced
-    variant, changed = _strip_deletions(chain, lo)
-    variant_dump = None
-    variant_err = None
-    if changed:
-        try:
-            variant_dump = pipe_dump(C.build(variant))
-        except Exception as e:
-            variant_err = type(e).__name__
+    changed, variant_dump, variant_err = _variant_without_deletions(chain, lo)
     for tag, kind, det in res["fails"]:
         msg = "%s %s: %s" % (tag, kind, det)
         # (1) SelectRowsNode.replace_leaves passes a wrong keyword
@@ -312,7 +326,7 @@ def classify(chain, cuts, segs, res) -> Dict[str, List[str]]:
             if kind in ("result", "cod", "assoc-eq") and comp is not None and variant_dump is not None and pipe_dump(comp) == variant_dump:
                 keys.setdefault("%s:view_representations.MapColumnsNode.replace_leaves:map_columns-deletion-lost" % PID, []).append(msg)
                 continue
-            if kind == "raise" and variant_err is not None and det.startswith(variant_err + ":"):
+            if kind == "raise" and variant_err is not None and det == variant_err:
                 keys.setdefault("%s:view_representations.MapColumnsNode.replace_leaves:map_columns-deletion-lost" % PID, []).append(msg)
                 continue
         keys.setdefault("%s:unclassified:%s" % (PID, O.uhash([kind, det.split(":")[0] if kind == "raise" else "", [s[0] for s in chain["steps"][lo:]]])), []).append(msg)
@@ -326,7 +340,7 @@ def classify(chain, cuts, segs, res) -> Dict[str, List[str]]:
 
 def scope(tier: str) -> Dict[str, Any]:
     if tier == "quick":
-        return {"per_case": 2, "d3_shard": 4, "d4_shard": 0, "max_rows": 3, "cap": 24}
+        return {"per_case": 2, "d3_shard": 5, "d4_shard": 0, "max_rows": 3, "cap": 24}
     return {"per_case": 3, "d3_shard": 1, "d4_shard": 40, "max_rows": 3, "cap": 40}
 
 
